@@ -1,6 +1,6 @@
 (** C09 — pacing: debt-driven calls pay their debt; sleep is honoured (over exact rationals). *)
 From Coq Require Import QArith.
-From GA Require Import Model.Spec Proofs.MetricsLemmas Proofs.Pacing.
+From GA Require Import Model.Spec Proofs.Inv Proofs.MetricsLemmas Proofs.Pacing Proofs.Protocol.
 
 (** collect_debt that completes returns with zero allocation debt *)
 Theorem C09_collect_zero :
@@ -21,6 +21,20 @@ Theorem C09_mark_debt :
 Proof. exact mark_debt_exit. Qed.
 Print Assumptions C09_mark_debt.
 
+(** unconditionally (every call terminates): in every reachable quiescent arena state *)
+Theorem C09_collect_debt_pays :
+  forall c c' evs oc, Inv None c -> quiescent c ->
+    do_collection dec_debt c PayDebt Full None = (c', evs, oc) -> oc = Done /\ debt_pos (met c') = false.
+Proof. exact collect_debt_pays. Qed.
+Print Assumptions C09_collect_debt_pays.
+
+Theorem C09_cycle_debt_contract :
+  forall c c' evs oc, Inv None c -> quiescent c ->
+    do_collection dec_debt c PayDebt FinishCycle None = (c', evs, oc) ->
+    oc = Done /\ (debt_pos (met c') = false \/ ph c' = Sleep).
+Proof. exact cycle_debt_contract. Qed.
+Print Assumptions C09_cycle_debt_contract.
+
 (** after a cycle that finished with no debt carried over the debt reads zero, and the wake-up
     amount is max(min_sleep, sleep_factor x survivors) *)
 Theorem C09_sleep_reset : forall m, (allocation_debt (finish_cycle m true) == 0)%Q.
@@ -36,8 +50,8 @@ Print Assumptions C09_wakeup_amount.
 Theorem C09_sleep :
   forall m, (artificial m == 0)%Q -> marked m = 0%N -> traced m = 0%N -> remembered m = 0%N -> dropped m = 0%N ->
     freed m = 0%N -> total m <> 0%N ->
-    ((QofN (allocated m) <= wakeup m)%Q -> (allocation_debt m == 0)%Q)
-    /\ ((wakeup m < QofN (allocated m))%Q -> (allocation_debt m == QofN (allocated m) - wakeup m)%Q).
+    ((QofN (Metrics.allocated m) <= wakeup m)%Q -> (allocation_debt m == 0)%Q)
+    /\ ((wakeup m < QofN (Metrics.allocated m))%Q -> (allocation_debt m == QofN (Metrics.allocated m) - wakeup m)%Q).
 Proof. exact sleeping_debt. Qed.
 Print Assumptions C09_sleep.
 
